@@ -32,7 +32,7 @@ PROP = dict(
           "the typo fallback (letters dropped from a rare word that occurs in exactly one platform-bound entry), each under all 16 combinations of "
           "all-platforms / no-cross-platform / pipeline-only / platforms given; a case is non-trivial if some search returned results while the "
           "database held entries the request excludes; distinct = distinct op sequences. Stream c04x enumerates the gate over tag lists x command "
-          "kinds x every switch combination x platform requests. CLI runs: real binary, generated YAML database, 10 flag sets."),
+          "kinds x every switch combination x platform requests. CLI runs: real binary, generated YAML database, 10 flag sets; the first six runs ask for a rare tool that only an excluded entry has (the CLI's recovery search is what would print it)."),
     assumptions=["cached answers: C05 (`Wtf.C05.transparent`) — an answer served from the cache equals the fresh answer for the same request",
                  "legacy `wtf pipeline` search: pipeline clause only (it has no platform notion; DESIGN.md scope note)"],
 )
@@ -75,6 +75,8 @@ def cli_stream(ctx, runs):
                 ctx.distinct.add("cli:" + json.dumps([l["args"], l["query"]]))
         if l.get("recovery"):
             dist["cli.recovery-answer"] = dist.get("cli.recovery-answer", 0) + 1
+        if not l.get("printed") and l.get("db_entries_excluded"):
+            dist["cli.nothing-printed-with-excluded-entries"] = dist.get("cli.nothing-printed-with-excluded-entries", 0) + 1
         if l.get("violations"):
             cls = "cli-recovery-ignores-filters" if l.get("recovery") else "cli-platform-filter-violated"
             ctx.hit(cls, "%s: wtf %s %r printed %s" % (cls, " ".join(l["args"]), l["query"], l["violations"][:3]),
@@ -83,6 +85,25 @@ def cli_stream(ctx, runs):
     ctx.add_distribution(dist)
     if lines:
         ctx.cov["samples"].append(dict(domain="cli", run=lines[0]))
+
+
+def gate_vs_predicate(ctx):
+    """passesFilters against the monitor's predicate (written from the property statement) over the finite pool."""
+    p = subprocess.run([core.HARNESS_BIN, "tool", "c04gate", ctx.tier], stdout=subprocess.PIPE, stderr=subprocess.PIPE,
+                       env=core.go_env(), timeout=600)
+    try:
+        res = json.loads(p.stdout.decode())
+    except Exception:
+        res = {}
+    n = res.get("checked", 0)
+    ctx.cov["evaluations"] += n
+    ctx.add_distribution({"gate.enumerated-combinations": n})
+    ctx.oblige("gate:engine-gate-equals-property-predicate(pool x switches)", "monitor",
+               n > 0 and not res.get("admits_disallowed") and not res.get("rejects_allowed"), json.dumps(res)[:1500])
+    for row in res.get("admits_disallowed") or []:
+        ctx.hit("gate-admits-disallowed-command", "passesFilters admits %s" % json.dumps(row),
+                dict(kind="impl-counterexample", domain="gate", **{"class": "gate-admits-disallowed-command"}, input=row,
+                     cmd="wtfverif tool c04gate " + ctx.tier))
 
 
 def run(ctx):
@@ -95,8 +116,59 @@ def run(ctx):
     ctx.correspond("search", 1, name="search-c04x", args={"stream": "c04x"}, shrink=False, nontrivial=lambda *a: True, sample_n=0)
     if not quick:
         ctx.exhaustive = True  # stream c04x (thorough pool): complete enumeration of its finite space
+    gate_vs_predicate(ctx)
     # directed: mixed-platform databases, fuzzy-only queries, all 16 switch combinations
-    ctx.correspond("search", 60 if quick else 600, name="search-c04", args={"stream": "c04"}, shrink=False, nontrivial=nontrivial)
+    ctx.correspond("search", 150 if quick else 800, name="search-c04", args={"stream": "c04"}, shrink=False, nontrivial=nontrivial)
     # the general generator of the search family (random options, paired runs, odd text)
-    ctx.correspond("search", 500 if quick else 6000, name="search", shrink=False, nontrivial=nontrivial, seed_offset=3, sample_n=1)
-    cli_stream(ctx, 10 if quick else 60)
+    ctx.correspond("search", 1200 if quick else 8000, name="search", shrink=False, nontrivial=nontrivial, seed_offset=3, sample_n=1)
+    cli_stream(ctx, 16 if quick else 80)
+
+
+def replay(ctx, rep):
+    """./check C04 --replay <file>: re-execute the recorded failing input on the current tree (real code and model)."""
+    if not ctx.stage_build():
+        print("build failed")
+        return 1
+    items = []
+    if "failing" in rep:
+        items.append(rep["failing"])
+    for o in rep.get("broken_obligations", []):
+        if isinstance(o.get("detail"), dict) and "ops" in o["detail"]:
+            items.append(o["detail"])
+    rc = 0
+    for it in items:
+        if it.get("domain") == "gate":
+            p = subprocess.run([core.HARNESS_BIN, "tool", "c04gate", ctx.tier], stdout=subprocess.PIPE, env=core.go_env(), timeout=600)
+            print("recorded:", json.dumps(it.get("input")))
+            print("now     :", p.stdout.decode(errors="replace")[:1500])
+            if '"admits_disallowed":null' not in p.stdout.decode(errors="replace"):
+                rc = 1
+            continue
+        if it.get("domain") == "cli":
+            ok, out, wtf = core.build_wtf_binary()
+            work = os.path.join(ctx.rundir, "cli")
+            os.makedirs(work, exist_ok=True)
+            runs = int(it["cmd"].split(" ")[-1])
+            p = subprocess.run([core.HARNESS_BIN, "tool", "c04cli", wtf, work, str(it.get("seed", ctx.seed)), str(runs)],
+                               stdout=subprocess.PIPE, env=core.go_env(), timeout=600)
+            for l in p.stdout.decode(errors="replace").split("\n"):
+                if l.strip().startswith("{"):
+                    d = json.loads(l)
+                    if d.get("violations") or d.get("error"):
+                        rc = 1
+                        print("wtf", " ".join(d["args"]), repr(d["query"]), "->", d.get("violations"), d.get("error", ""))
+            print("recorded run:", json.dumps(it.get("run")))
+            continue
+        mm, il, ml, hits = core.run_single_case(ctx, "replay", it["domain"], it["ops"])
+        print("ops:")
+        for l in it["ops"]:
+            print("   ", core.pretty(l))
+        print("impl :", il)
+        print("model:", ml)
+        hits = [h for h in hits if h.get("prop") == "C04"]
+        print("monitor hits:", json.dumps(hits))
+        if mm or hits:
+            rc = 1
+    if not items:
+        print(json.dumps(rep, indent=1)[:4000])
+    return rc
